@@ -244,6 +244,8 @@ add("gc8", "%start S\n%%\nS: 'c' A | 'd' 'a' B | 'c' 'a' B 'c' | ;\nA: A C C 'b'
 
 # a state with three distinct (rule, length) reductions: core_reduces must list all three
 add("core-reduces3", "%start S\n%%\nS: A 'x' | B 'y' | C 'z' | D D 'w';\nA: 'a';\nB: 'a';\nC: 'a';\nD: ;\n", tags=["lr1"], inputs=["a x", "a y", "a z", "w", "a"])
+# one state completes two productions of the SAME rule with different lengths (disjoint lookaheads)
+add("core-reduces-samerule", "%start S\n%%\nS: E 'p' | 'a' E 'q';\nE: 'a' B | B;\nB: 'b';\n", tags=["lr1"], inputs=["a b p", "a b q", "a a b q", "b p", "a b"])
 add("core-reduces4", "%start S\n%%\nS: 'q' A 'x' | 'q' B 'y' | 'q' C 'z' | 'q' E 'v';\nA: 'a' 'b';\nB: 'a' 'b';\nC: 'a' 'b';\nE: 'a' 'b';\n", tags=["lr1"], inputs=["q a b x", "q a b v", "q a b"])
 
 # two partial repairs of equal cost, one ending in a delete and one in an insert, reach the same
